@@ -27,7 +27,7 @@ T['C02'] = ("""C02 Each field maps to one attribute, named and typed as document
     ('C02_source_type_rows_unique', 'src_type_rows_unique', 'each proto type constant occurs in exactly one row of that switch'),
     ('C02_source_type_special', 'src_type_special_agrees', 'enum, time, duration, message and default rows'),
     ('C02_schema_entry_of_declared_field', 'schema_entry_of_declared_field', "end to end, descriptor + configuration -> schema: every declared, not excluded, not embedded field of a message that builds has exactly one schema entry, under the documented name (override, JSON tag, snake case), with the documented type (scalar table, list, map, nested block single/list/map with the nested message's own entries, hook for custom types), provided the name is not used twice"),
-    ('C02_schema_entry_origin', 'schema_entry_origin', 'and conversely every schema entry stems from a declared field (directly or promoted from an embedded message), is the placeholder of a field-less message, or is an injected attribute: no stray attributes'),
+    ('C02_schema_entry_origin', 'schema_entry_origin', 'and conversely every schema entry stems from a declared field (directly or promoted from an embedded message), is the placeholder of a message with no field left (none declared, or every declared field excluded), or is an injected attribute: no stray attributes'),
     ('C02_schema_names', 'schema_names_distinct', 'the attribute names of a schema are pairwise distinct and are exactly the documented names'),
     ('C02_schema_through_run', 'schema_entry_through_run', 'the same stated for the roots the plugin emits for a request (through run)'),
     ('C02_source_kind_rules', 'src_kind_rules_agree', "tie to the source: the decision rules of field.go getKind, as read on this run, give for all 32 combinations of the five flags the kind the model's front end decides"),
@@ -183,7 +183,8 @@ T['C10'] = ("""C10 Schema flags and metadata follow the configuration.""", [
     ('C10_description_one_line', 'field_comment_one_line', 'a description is one line: no newline, trimmed, and a fixpoint of the flattening'),
     ('C10_front_end_flags', 'build_view_single', 'the front end sets the flags, validators, plan modifiers (UseStateForUnknown by default for computed fields when configured) and description from the configuration'),
     ('C10_placeholder_schema', 'build_message_placeholder', 'a message without fields gets exactly the placeholder field'),
-    ('C10_placeholder_iff', 'build_message_empty_iff', 'and only such a message'),
+    ('C10_placeholder_iff', 'build_message_empty_iff', 'and only a message with no field left: a message counts as empty, and then has exactly the placeholder, iff every declared field is excluded (in particular when none is declared), iff nothing comes out of BuildFields'),
+    ('C10_placeholder_all_excluded', 'build_message_all_excluded_placeholder', 'a message whose fields are all excluded gets exactly the placeholder field, like a message without fields'),
     ('C10_schema_entry_flags', 'schema_entry_of_declared_field', 'end to end: that one entry carries Required / Optional = not Required / Computed / Sensitive from the configuration lookups (path key first, then message-qualified key), the one-line description, the configured validators, and the configured plan modifiers or else UseStateForUnknown for computed fields when the default is on'),
     ('C10_schema_roots_through_run', 'schema_roots_through_run', 'for the roots of a request: origin of every entry, distinct names, documented name set'),
 ])
@@ -196,7 +197,7 @@ T['C11'] = ("""C11 Field-addressed options hit exactly the addressed fields; exc
     ('C11_flag_iff', 'flag_iff', 'a boolean option holds for a field exactly when its message-qualified name or its path is listed'),
     ('C11_path_first', 'by_keys_path_first', 'valued options: the entry under the path wins'),
     ('C11_then_type_name', 'by_keys_type_name', 'otherwise the entry under the message-qualified name, if any'),
-    ('C11_exclusion_is_deletion_roots', 'ok_roots_excl_lit', 'exclusion is surgical: generating with the key "D.f" in exclude_fields gives, for every selected root, literally the IR generated from the file with field f deleted from message D and the key removed from the list (Go zero values recomputed from the original structs, which keep the field) — every other field, name, flag, nested message, at every depth and occurrence, syntactically equal'),
+    ('C11_exclusion_is_deletion_roots', 'ok_roots_excl_lit', 'exclusion is surgical: generating with the key "D.f" in exclude_fields gives, for every selected root, literally the IR generated from the file with field f deleted from message D and the key removed from the list (Go zero values recomputed from the original structs, which keep the field) — every other field, name, flag, nested message, at every depth and occurrence, syntactically equal; a message that loses its last field gets the placeholder on both sides'),
     ('C11_exclusion_schemas_equal', 'schemas_excl', 'hence the schemas are equal for any hook'),
     ('C11_exclusion_converters_equal', 'converters_excl', 'and both converters coincide'),
     ('C11_exclusion_message_level', 'build_message_excl_cfg_lit', 'the same for every message of the request at every path from which the key cannot be formed'),
